@@ -170,8 +170,11 @@ func (b *Built) defineNode(n int, g *getoptions.GetOpt) {
 		g.UnsetOptions()
 	}
 	if !(b.Cfg.Late && n == 1) {
-		g.SetUnknownMode(getoptions.UnknownMode(nd.Um))
-		if nd.Ro {
+		inherit := cfg.Inherit && !cfg.Late && n > 1
+		if !(inherit && nd.Um == cfg.Nodes[nd.Parent-1].Um) {
+			g.SetUnknownMode(getoptions.UnknownMode(nd.Um))
+		}
+		if nd.Ro && !(inherit && cfg.Nodes[nd.Parent-1].Ro) {
 			g.SetRequireOrder()
 		}
 	}
@@ -194,10 +197,16 @@ func (b *Built) defineNode(n int, g *getoptions.GetOpt) {
 		}
 		g.HelpSynopsisArg(FromAtoms(nd.Args[i]), d)
 	}
-	for i, o := range cfg.Opts {
-		if o.Node == n && !o.IsHelpOpt {
-			b.defineOpt(i, g)
+	optsLate := cfg.OptsLate && cfg.HelpOpt() != 0
+	defineOpts := func() {
+		for i, o := range cfg.Opts {
+			if o.Node == n && !o.IsHelpOpt {
+				b.defineOpt(i, g)
+			}
 		}
+	}
+	if !optsLate {
+		defineOpts()
 	}
 	for _, c := range cfg.children(n) {
 		cn := cfg.Nodes[c-1]
@@ -206,6 +215,9 @@ func (b *Built) defineNode(n int, g *getoptions.GetOpt) {
 		}
 		cg := g.NewCommand(FromAtoms(cn.Name), FromAtoms(cn.Desc))
 		b.defineNode(c, cg)
+	}
+	if optsLate {
+		defineOpts()
 	}
 }
 
